@@ -5,9 +5,9 @@ import (
 
 	"verifsim/c15"
 	"verifsim/c16"
-	"verifsim/raceorc"
 	"verifsim/c17"
 	"verifsim/c20"
+	"verifsim/raceorc"
 )
 
 func init() {
@@ -17,9 +17,10 @@ func init() {
 				"then EVERY single-fault plan over its resolver call sequence (ident call k=1..N, inner name-resolver call j=1..M, restore side every resolved path and every call index, natural not-found per path) " +
 				"plus tape-sampled 2-3 fault sequences; in a third of the runs also every fault position while decorating an isolated declaration (DecorateNode) and a directory (ParseDir) with a caller-supplied resolver. evaluations = faulted operations in which the injected fault actually fired. " +
 				"A case is (workload hash, fault plan); it is counted as distinct_nontrivial only if the fault fired in it; distinctness is by 64-bit hash merged over all processes.",
-			"real": []string{"decorator.Decorator (DecorateFile, DecorateNode, ParseFile)", "decorator.Restorer / FileRestorer (Fprint, RestoreFile, updateImports)", "goast.DecoratorResolver", "guess / simple / gobuild RestorerResolver", "go/parser", "go/format"},
-			"stub": []string{"gobuild FindPackage (map-backed finder instead of the file system)", "fault-injecting wrappers around the public resolver interfaces"},
-			"not_run": []string{"gotypes resolver", "gopackages resolver", "decorator.Load"},
+			"in_call_race_probe": "a slice of the runs (other run indices than the main leg, counted in reach_probes as in-call-race-probe-runs) executes in the race-detector build of the same engine: the engine calls dst from one goroutine, so a race report with both accesses in dst code means dst started goroutines of its own that share state unsynchronised (violation <prop>/race-inside-call); a process that dies without the crash repeating on replay is re-executed there before it is called infrastructure trouble",
+			"real":               []string{"decorator.Decorator (DecorateFile, DecorateNode, ParseFile)", "decorator.Restorer / FileRestorer (Fprint, RestoreFile, updateImports)", "goast.DecoratorResolver", "guess / simple / gobuild RestorerResolver", "go/parser", "go/format"},
+			"stub":               []string{"gobuild FindPackage (map-backed finder instead of the file system)", "fault-injecting wrappers around the public resolver interfaces"},
+			"not_run":            []string{"gotypes resolver", "gopackages resolver", "decorator.Load"},
 			"assumptions": []string{
 				"the reflective dump (all exported fields, decorations, spacing, Path, pointer identity, positions for ast) is the meaning of 'tree unmodified' and 'equal result'",
 				"injected errors are compared with errors.Is, never by message",
@@ -32,9 +33,10 @@ func init() {
 			"rule": "one run = one history over a hand-built decorator.Package (1-6 generated files in 1-3 simulated directories, tape-chosen Syntax order, bystander files on the disk): " +
 				"[edits] Save [edits] Save ... final fault-free Save, each Save with a tape-chosen fault (resolver failure at file i by path / by k-th call / natural not-found, disk error or torn write at the j-th write). " +
 				"evaluations = Save calls executed; a case is (package hash, Syntax order, resolver kind, save index, fault kind, fault position) and is non-trivial because every Save is checked against the twin package and the disk model; distinct by 64-bit hash over all processes.",
-			"real": []string{"decorator.Package.save via the verif hook (and the exported SaveWithResolver on a real scratch directory in 1/8 of the runs)", "decorator.Decorator.ParseFile with goast over guess", "decorator.Restorer.Fprint with import management", "guess / simple / gobuild RestorerResolver", "go/parser", "go/format"},
-			"stub": []string{"disk behind the writeFile seam (map + journal; error-before-any-byte and torn-write faults)", "gobuild FindPackage (map-backed)", "packages.Package (only PkgPath and Fset set)"},
-			"not_run": []string{"decorator.Load / packages.Load (go list subprocess)", "Package.Save() with the gopackages resolver"},
+			"in_call_race_probe": "a slice of the runs (other run indices than the main leg, counted in reach_probes as in-call-race-probe-runs) executes in the race-detector build of the same engine: the engine calls dst from one goroutine, so a race report with both accesses in dst code means dst started goroutines of its own that share state unsynchronised (violation <prop>/race-inside-call); a process that dies without the crash repeating on replay is re-executed there before it is called infrastructure trouble",
+			"real":               []string{"decorator.Package.save via the verif hook (and the exported SaveWithResolver on a real scratch directory in 1/8 of the runs)", "decorator.Decorator.ParseFile with goast over guess", "decorator.Restorer.Fprint with import management", "guess / simple / gobuild RestorerResolver", "go/parser", "go/format"},
+			"stub":               []string{"disk behind the writeFile seam (map + journal; error-before-any-byte and torn-write faults)", "gobuild FindPackage (map-backed)", "packages.Package (only PkgPath and Fset set)"},
+			"not_run":            []string{"decorator.Load / packages.Load (go list subprocess)", "Package.Save() with the gopackages resolver"},
 			"assumptions": []string{
 				"'the import-managed print of that file' is Restorer.Fprint of an independently constructed twin tree with a fresh restorer per file",
 				"a lying disk (silently lost or misdirected writes) is not simulated; whether later files are attempted after a write error is not demanded",
@@ -46,9 +48,10 @@ func init() {
 		return map[string]interface{}{
 			"rule": "one run = one stored source (embedded corpus of 133 real/edge-case files or a generated file) and one fault mode: exhaustive truncation at every byte offset or a comment inserted at every token boundary (sources <= 3000 bytes), reader errors at ~64 offsets plus (n>0, EOF) readers, writer errors at ~48 offsets, or 24 tape-sampled inputs with 1-3 composed storage faults (truncate, bitflip, zero/garbage/drop/dup/swap range, syntax byte, comment insertion); each faulted input goes through one of 8 parse entry points and every tree returned through every printer. " +
 				"evaluations = faulted inputs parsed; a case is (input bytes hash, entry point, parser mode, FileSet preload, stream fault) and is non-trivial when the bytes differ from the stored source or a stream fault is armed; distinct by 64-bit hash over all processes.",
-			"real": []string{"decorator.Parse / ParseFile / ParseDir / DecorateFile / Decorator with imports", "decorator.Fprint / RestoreFile / Restorer(imports).Fprint / Restorer(Extras)", "goast + guess resolvers", "go/parser", "go/format"},
-			"stub": []string{"faulty io.Reader / io.Writer", "storage-fault transformer over the stored bytes"},
-			"not_run": []string{"decorator.Load", "decorator.Print (stdout)"},
+			"in_call_race_probe": "a slice of the runs (other run indices than the main leg, counted in reach_probes as in-call-race-probe-runs) executes in the race-detector build of the same engine: the engine calls dst from one goroutine, so a race report with both accesses in dst code means dst started goroutines of its own that share state unsynchronised (violation <prop>/race-inside-call); a process that dies without the crash repeating on replay is re-executed there before it is called infrastructure trouble",
+			"real":               []string{"decorator.Parse / ParseFile / ParseDir / DecorateFile / Decorator with imports", "decorator.Fprint / RestoreFile / Restorer(imports).Fprint / Restorer(Extras)", "goast + guess resolvers", "go/parser", "go/format"},
+			"stub":               []string{"faulty io.Reader / io.Writer", "storage-fault transformer over the stored bytes"},
+			"not_run":            []string{"decorator.Load", "decorator.Print (stdout)"},
 			"assumptions": []string{
 				"partial claim: only inputs derivable from the corpus by storage faults and run-time stream failures are covered, not arbitrary byte strings",
 				"'erroneous input' is decided by go/parser on the same bytes and mode, independently of dst",
@@ -61,8 +64,8 @@ func init() {
 			return map[string]interface{}{
 				"rule": "3/4 of the runs are scheduled runs: 2-6 real caller goroutines (1-3 pipelines each: Parse->Fprint (or RestoreFile / decision point / format.Node), DecorateFile/ParseFile with import management through a SHARED goast resolver -> tape-drawn edits -> import-managed Fprint through a SHARED read-only name resolver (optionally one reused FileRestorer per worker) -> re-decorate, or a Package over a FileSet shared by all workers saved to a private simulated disk), serialised by a race-detector-invisible scheduler whose every decision (first worker, change points / round-robin quantum / sticky-random switches, decision-point granularity: resolver calls only, or every function entry and statement of an instrumented copy of the library) comes from the tape; oracles: race detector (O1), equality with an isolated sequential reference (O2), in-worker repetition (O3), no panic (O4), progress (O5). " +
 					"1/4 are repetition runs: decorate / restore / RestoreFile / ParseDir repeated R times (8 quick, 32 thorough) on equal inputs biased to map-derived choices. evaluations = runs; a scheduled run's distinct case is the hash of its (worker, site) sequence at context switches together with the shared kinds; a repetition run's is the hash of its results; distinct by 64-bit hash over all processes.",
-				"real": []string{"decorator.Decorator / Restorer / FileRestorer, one private instance per operation", "one shared goast.DecoratorResolver per run (New(), or over guess / simple / gobuild)", "one shared guess / simple / gobuild RestorerResolver per run", "go/parser, go/format", "Go race detector (ThreadSanitizer runtime) as the happens-before judge", "real goroutines"},
-				"stub": []string{"scheduler: turn word in raw-mmap'd memory, decisions from the tape", "gobuild FindPackage (map-backed)", "optional permanently failing path inside the shared name resolver"},
+				"real":    []string{"decorator.Decorator / Restorer / FileRestorer, one private instance per operation", "one shared goast.DecoratorResolver per run (New(), or over guess / simple / gobuild)", "one shared guess / simple / gobuild RestorerResolver per run", "go/parser, go/format", "Go race detector (ThreadSanitizer runtime) as the happens-before judge", "real goroutines"},
+				"stub":    []string{"scheduler: turn word in raw-mmap'd memory, decisions from the tape", "gobuild FindPackage (map-backed)", "optional permanently failing path inside the shared name resolver"},
 				"not_run": []string{"gotypes / gopackages resolvers", "decorator.Load", "sharing a Decorator or Restorer between goroutines (outside C16's statement)"},
 				"assumptions": []string{
 					"decision points are operation boundaries, every resolver call and (half of the scheduled runs) every function entry and statement of dst; standard-library code between them runs atomically",
